@@ -16,7 +16,7 @@ RULE = ("entry points {marginal_ln_likelihood, rejection_sample, iterative_rejec
 EXHAUSTIVE = True
 BOUNDED = ["k <= 3; SerialPool (MultiPool only in the thorough tier)"]
 BUDGET_S = {"quick": 90, "thorough": 600}
-SITES = ["write", "read_batch", "ll", "post", "pool.map", "unpack", "concatenate"]
+SITES = ["write", "write-inner", "read_batch", "ll", "post", "pool.map", "unpack", "concatenate"]
 
 
 class Boom(Exception):
@@ -56,10 +56,26 @@ def _setup(seed):
     _ctx["hash"] = hashlib.sha256(open(_ctx["path"], "rb").read()).hexdigest()
 
 
-def _call(entry, joker_mod, helper, src, rng):
+def _pool():
+    """a serial pool that behaves like a process pool once closed: it refuses further work"""
+    import schwimmbad
+
+    class TrackPool(schwimmbad.SerialPool):
+        closed = False
+
+        def close(self):
+            self.closed = True
+
+        def map(self, *a, **k):
+            if self.closed:
+                raise ValueError("Pool not running")
+            return super().map(*a, **k)
+    return TrackPool()
+
+
+def _call(entry, joker_mod, helper, src, rng, pool):
     import schwimmbad
     from thejoker.multiproc_helpers import iterative_rejection_helper, marginal_ln_likelihood_helper, rejection_sample_helper
-    pool = schwimmbad.SerialPool()
     if entry == "marginal":
         return marginal_ln_likelihood_helper(helper, src, pool=pool, n_batches=3)
     if entry == "rejection":
@@ -97,6 +113,9 @@ def check(inp):
     site = inp["site"]
     if site == "write":
         patch(JokerSamples, "write")
+    elif site == "write-inner":
+        import thejoker.samples_helpers as sh
+        patch(sh, "_encode_mixins")          # a failure INSIDE the table writer, after the output file has been opened
     elif site == "read_batch":
         patch(mh, "read_batch")
     elif site == "ll":
@@ -112,15 +131,18 @@ def check(inp):
     elif site == "concatenate":
         patch(mh.np, "concatenate")
     raised = None
+    pool = _pool()
     try:
         try:
-            _call(inp["entry"], mh, helper, src, np.random.default_rng(3))
+            _call(inp["entry"], mh, helper, src, np.random.default_rng(3), pool)
         except Boom as e:
             raised = e
-        except Exception as e:     # the injected failure surfaced as another exception type: still a propagated failure
+        except Exception as e:     # the injected failure was replaced by another exception on its way out
             raised = e if count["n"] >= inp["k"] else None
             if raised is None:
                 bad("unexpected-exception", exc=repr(e))
+            else:
+                bad("the-original-exception-reaches-the-caller", got=repr(e), site=site)
     finally:
         for obj, name, orig in reversed(patches):
             setattr(obj, name, orig)
@@ -137,7 +159,10 @@ def check(inp):
         bad("user-file-unchanged")
     # the same objects work on the next call
     helper2 = S.StubHelper({i: [0.0, -1.0, -0.5][i % 3] for i in range(9)})
-    ll = mh.marginal_ln_likelihood_helper(helper2, src, pool=schwimmbad.SerialPool(), n_batches=2)
-    if not np.array_equal(ll, np.array([[0.0, -1.0, -0.5][i % 3] for i in range(9)])):
-        bad("next-call-gives-correct-results")
+    try:
+        ll = mh.marginal_ln_likelihood_helper(helper2, src, pool=pool, n_batches=2)      # the SAME pool the failed call was given
+        if not np.array_equal(ll, np.array([[0.0, -1.0, -0.5][i % 3] for i in range(9)])):
+            bad("next-call-gives-correct-results")
+    except Exception as e:
+        bad("next-call-gives-correct-results", exc=repr(e), pool_closed=pool.closed)
     return fails
